@@ -54,7 +54,8 @@ def make_adapter(specs, log):
         is_text = isinstance(sp["regex"], str)
 
         def mk(i=i, sp=sp, is_text=is_text):
-            enc = (lambda x: None if x is None else f"r{x}".encode())   # TCP replies are bytes
+            # TCP replies are bytes; reply 0 stands for the empty reply b"" (still written, in the adapter's byte format)
+            enc = (lambda x: None if x is None else (b"" if x == 0 else f"r{x}".encode()))
             if sp["stream"] == "asyncgen":
                 # the command itself is an async generator function, as RemoteControlledAdapter.yield_observed of the examples
                 async def method(self, *args):
@@ -94,7 +95,7 @@ def gen_specs(rng):
             # iterated: tickit's own example uses this form for a non-interrupting command only, and so do we)
             sp["stream"] = "asyncgen"
         if sp["stream"]:
-            sp["replies"] = [rng.choice([None, 10 * k + j]) for j in range(rng.randint(0, 3))]
+            sp["replies"] = [rng.choice([None, 10 * k + j, 0]) for j in range(rng.randint(0, 3))]
         else:
             sp["replies"] = [10 * k]
         specs.append(sp)
@@ -190,7 +191,7 @@ def r_events(log):
                 out.append("EvWriteUnknown")
             else:
                 mo = re.fullmatch(rb"<r(\d+)>", data)
-                out.append(f"EvWrite {Zr(int(mo.group(1)))}" if mo else "EvWrite (-1)%Z")
+                out.append("EvWrite 0%Z" if data == b"<>" else (f"EvWrite {Zr(int(mo.group(1)))}" if mo else "EvWrite (-1)%Z"))
     return L(out)
 
 
